@@ -281,10 +281,81 @@ func strip(v ssa.Value) ssa.Value {
 			v = x.X
 		case *ssa.MakeInterface:
 			v = x.X
+		case *ssa.UnOp:
+			// load of a local variable cell that is assigned exactly once
+			if x.Op != token.MUL {
+				return v
+			}
+			a, ok := x.X.(*ssa.Alloc)
+			if !ok {
+				return v
+			}
+			w := singleStore(a)
+			if w == nil {
+				return v
+			}
+			v = w
 		default:
 			return v
 		}
 	}
+}
+
+var singleStoreCache = map[*ssa.Alloc]ssa.Value{}
+
+// singleStore returns the only value ever stored to the local cell a (by its
+// function or by closures capturing it), or nil.
+func singleStore(a *ssa.Alloc) ssa.Value {
+	if v, ok := singleStoreCache[a]; ok {
+		return v
+	}
+	var val ssa.Value
+	n := 0
+	var scan func(addr ssa.Value, depth int)
+	scan = func(addr ssa.Value, depth int) {
+		refs := addr.Referrers()
+		if refs == nil || depth > 3 {
+			return
+		}
+		for _, r := range *refs {
+			switch x := r.(type) {
+			case *ssa.Store:
+				if x.Addr == addr {
+					n++
+					val = x.Val
+				}
+			case *ssa.MakeClosure:
+				fn := x.Fn.(*ssa.Function)
+				for i, b := range x.Bindings {
+					if b == addr && i < len(fn.FreeVars) {
+						scan(fn.FreeVars[i], depth+1)
+					}
+				}
+			case *ssa.UnOp, *ssa.DebugRef:
+			default:
+				// address escapes some other way (call argument, field address)
+				if _, isFA := r.(*ssa.FieldAddr); isFA {
+					n += 2
+				} else if _, isIA := r.(*ssa.IndexAddr); isIA {
+					n += 2
+				} else if _, isCall := r.(ssa.CallInstruction); isCall {
+					n += 2
+				}
+			}
+		}
+	}
+	scan(a, 0)
+	if n != 1 {
+		val = nil
+	}
+	if val != nil {
+		// never resolve a cell to a value defined from itself
+		if u, ok := val.(*ssa.UnOp); ok && u.X == a {
+			val = nil
+		}
+	}
+	singleStoreCache[a] = val
+	return val
 }
 
 // Param matches the parameter (or receiver) with the given name.
